@@ -112,7 +112,7 @@ def make_files(ck):
 
 
 def main():
-    ck = Check("C11", "fault enumeration / other")
+    ck = Check("C11", "fault_enumeration")
     build_repo()
     pr = ck.proofs()
     files = make_files(ck)
